@@ -7,7 +7,7 @@ panics are values (rule R-panic), so "panics iff L != N" is an ordinary postcond
 import re
 
 NAME = 'views'
-PROPS = ['C02', 'C10', 'C18']
+PROPS = ['C02', 'C09', 'C10', 'C18']
 DROPPED = 'bytes (offsets are in elements; element size is factored out by C01); panic messages; the const-ness of the functions'
 FILE = 'src/lib.rs'
 GA = 'impl<T, N: ArrayLength> GenericArray<T, N>'
@@ -114,11 +114,42 @@ def generate(g, ex):
     ex.check_supported('const_transmute', body)
     g.emit_fn(Fn('const_transmute', FILE, f['line'], f['sig'], 'pub fn const_transmute(a: Bits, size_b: usize) -> (ret: PanicOr<Bits>)', body, [],
                  [('panics-iff-sizes-differ', ['C02', 'C10'], 'ret is Panic <==> a.size != size_b')], stats, n, PROPS))
+
+    # ---- by-reference Split::split (src/sequence.rs): the two adjacent sub-ranges of the original storage, no copy ----
+    seq = g.src('src/sequence.rs')
+    for form, hdr in (('ref', r"unsafe impl<'a, T, N, K> Split<T, K> for &'a GenericArray<T, N>\s*where[^{]*\{"),
+                      ('mut', r"unsafe impl<'a, T, N, K> Split<T, K> for &'a mut GenericArray<T, N>\s*where[^{]*\{")):
+        m = re.search(hdr, seq)
+        if not m:
+            raise ex.LostAnchor('by-reference Split impl (%s) not found' % form)
+        i = m.end() - 1
+        block = seq[i + 1:ex.match_brace(seq, i)]
+        f = ex.find_fn(block, 'split', i + 1, seq)
+        stats = {}
+        body = ex.normalize(f['body'])
+        n = ex.statements(body)
+        body = ex.apply_rules(body, [
+            ('R-misc', r'\bunsafe \{', '{'),
+            ('R-ptr', r'let ptr_to_first: \*(?:const|mut) T = self\.as_(?:mut_)?ptr\(\);', 'let ptr_to_first = self_.as_ptr().cast(1);'),
+            # `as *const _`: the pointee is inferred from the declared result types (First = GenericArray<T, K>, Second = GenericArray<T, N - K>)
+            ('R-ptr', r'let head = &(?:mut )?\*\(ptr_to_first as \*(?:const|mut) _\);', 'let head = deref(ptr_to_first.cast(K::usize_()));'),
+            ('R-ptr', r'let tail = &(?:mut )?\*\(ptr_to_first\.add\(K::USIZE\) as \*(?:const|mut) _\);', 'let tail = deref(ptr_to_first.add(K::usize_()).cast(N::usize_() - K::usize_()));'),
+        ], stats)
+        ex.check_supported('split_' + form, body, allow=('.cast(', '.add('))
+        g.emit_fn(Fn('split_' + form, 'src/sequence.rs', f['line'], f['sig'],
+                     'pub fn split_%s<N: ArrayLength, K: ArrayLength>(self_: Sl) -> (ret: (Sl, Sl))' % form, body,
+                     ['self_.stride == N::n()', 'self_.len == 1', 'self_.valid()', 'K::n() <= N::n()'],
+                     [('first-half-at-the-start', ['C09'], 'ret.0.base == self_.base && ret.0.off == self_.off && ret.0.len == 1 && ret.0.stride == K::n()'),
+                      ('second-half-adjacent', ['C09'], 'ret.1.base == self_.base && ret.1.off == self_.off + K::n() && ret.1.len == 1 && ret.1.stride == N::n() - K::n()'),
+                      ('cover-exactly', ['C09'], 'ret.0.end() == ret.1.start() && ret.1.end() == self_.end()')],
+                     stats, n, ['C09']))
     g.raw('proof fn canary() { assert(false); } /*OB:canary:*/')
     g.raw('} // verus!\nfn main() {}\n')
 
 
 def props_for(fname, what):
+    if fname and fname.startswith('split_'):
+        return ['C09']
     if fname and ('chunks' in fname):
         return ['C10', 'C18']
     return ['C02', 'C18']
